@@ -2,6 +2,7 @@
 //!
 //! This module handles error recovery logic and saving failed message records.
 
+use mdk_storage_traits::groups::Pagination;
 use mdk_storage_traits::groups::types as group_types;
 use mdk_storage_traits::messages::types as message_types;
 use mdk_storage_traits::{GroupId, MdkStorageProvider};
@@ -144,6 +145,39 @@ where
         Ok(MessageProcessingResult::Commit {
             mls_group_id: group.mls_group_id.clone(),
         })
+    }
+
+    /// Points the group's last-message fields at the first stored message, in display order,
+    /// that is not epoch-invalidated (or clears them if there is none).
+    fn refresh_last_message_pointer(&self, group_id: &GroupId) -> Result<()> {
+        const PAGE: usize = 100;
+
+        let Some(mut group) = self.get_group(group_id)? else {
+            return Ok(());
+        };
+
+        let mut head: Option<message_types::Message> = None;
+        let mut offset = 0;
+        loop {
+            let page =
+                self.get_messages(group_id, Some(Pagination::new(Some(PAGE), Some(offset))))?;
+            if let Some(message) = page
+                .iter()
+                .find(|m| m.state != message_types::MessageState::EpochInvalidated)
+            {
+                head = Some(message.clone());
+                break;
+            }
+            if page.len() < PAGE {
+                break;
+            }
+            offset += PAGE;
+        }
+
+        group.last_message_id = head.as_ref().map(|m| m.id);
+        group.last_message_at = head.as_ref().map(|m| m.created_at);
+        group.last_message_processed_at = head.as_ref().map(|m| m.processed_at);
+        self.save_group_record(group)
     }
 
     /// Handles processing errors with specific error recovery logic
@@ -328,6 +362,20 @@ where
                                 &group.mls_group_id,
                                 msg_epoch,
                             );
+
+                            // The rollback restored the group record, and with it the last-message
+                            // pointer, as it was when the snapshot was taken. Messages of the target
+                            // epoch that arrived later are still valid, so derive the pointer from
+                            // the stored messages again.
+                            if self
+                                .refresh_last_message_pointer(&group.mls_group_id)
+                                .is_err()
+                            {
+                                tracing::warn!(
+                                    target: "mdk_core::messages::process_message",
+                                    "Failed to refresh the last-message pointer after rollback"
+                                );
+                            }
 
                             // Find messages that failed to decrypt because we had the wrong
                             // commit's keys. Now that we've rolled back and will apply the
